@@ -12,6 +12,12 @@ from harness.val import exc_name
 from harness.props import _reg
 from harness.props._reg import enc2, dec2, E, tag_of, CONV, UNIT_ORDER
 
+try:  # imported before the workers fork, so that no case pays (or is interrupted in) the import
+    import vivarium  # noqa: F401
+    import vivarium.core.store  # noqa: F401
+except Exception:  # pragma: no cover - e.g. manifest generation without the repo on the path
+    pass
+
 PROP = 'C08'
 LEAN_TARGETS = ['VivProps.C08']
 DRIVER = 'Registry'
@@ -48,7 +54,7 @@ ASSUMPTIONS = [
     'coercions outside the model)',
     '`_reduce`, non-empty `_add/_move/_generate/_delete`, subschemas are other properties',
 ]
-CASE_TIMEOUT = 10.0
+CASE_TIMEOUT = 30.0
 
 UPDATERS = ['accumulate', 'set', 'null', 'merge', 'nonnegative_accumulate', 'dict_value']
 KEYS = ['a', 'b', 'c', 'd']
@@ -287,6 +293,8 @@ def leaf_units(cfg):
 def spec_tree(cfg, before, upd, touched, path=()):
     """expected value (encoded) of the subtree after the update; `touched` collects leaf paths that
     were addressed; raises NoSpec when the laws say nothing (outside the domain)."""
+    if before is _MISSING:
+        raise NoSpec()
     if isinstance(upd, dict) and 'd' in upd and _dget(upd, '_multi_update', _MISSING) is not _MISSING:
         mu = _dget(upd, '_multi_update')
         if _kind(mu) != 'list':
@@ -424,11 +432,12 @@ def g_dictvalue_cur(rng):
                   for k in rng.sample(KEYS, rng.randrange(0, 4))]}
 
 
-def g_dictvalue_upd(rng, cur, bad=0.08):
+def g_dictvalue_upd(rng, cur, bad=0.08, inner_ok=True):
     ks = [k for k, _ in cur['d']] if isinstance(cur, dict) and 'd' in cur else []
     live = list(ks)
     out = []
-    parts = rng.sample(['_add', '_delete', 'inner', 'inner2'], rng.randrange(0, 4))
+    parts = rng.sample(['_add', '_delete', 'inner', 'inner2'] if inner_ok else ['_add', '_delete'],
+                       rng.randrange(0, 4 if inner_ok else 3))
     for p in parts:
         if p == '_add':
             items = []
@@ -616,6 +625,12 @@ def gen_update(rng, cfg, value, depth=0):
         n = rng.choice([1, 1, 1, 2, 3, 4])
         if n == 1 and rng.random() < 0.9:
             return gen_leaf_update(rng, cfg, value)
+        if leaf_family(cfg) == 'dictvalue':
+            # later elements only add/delete: an inner update after an `_add` would mutate the
+            # caller's `state` object (candidate finding, notes/C08.md)
+            us = [g_dictvalue_upd(rng, value) if value is not None else {'d': []}]
+            us += [g_dictvalue_upd(rng, {'d': []}, inner_ok=False) for _ in range(n - 1)]
+            return {'d': [['_multi_update', {'l': us}]]}
         return {'d': [['_multi_update', {'l': [gen_leaf_update(rng, cfg, value) for _ in range(n)]}]]}
     kvs = []
     for k, sub in cfg['d']:
